@@ -10,15 +10,25 @@
 #include "cv_ghost.h"
 extern char cv_ftp_ipBuf[1024];   /* hoisted static local of Ftp::ParseIpPort */
 int cv_sanitycheck(void);          /* reads Config.Ftp.sanitycheck (wrap.cc) */
+void cv_set_sanitycheck(int v);
+/* Two ways to run the same harness (unit.json): plain cbmc ("harness" mode: statics keep their initialisers, so the ghosts
+ * start clear and the configuration value is made arbitrary here), or --dfcc enforcement of the contract below (CV_DFCC:
+ * every static is havocked by the instrumentation, ghosts_clear() is a precondition, and the assigns clause is checked). */
+#ifdef CV_DFCC
+#define ARBITRARY_CONFIG() ((void)0)
+#else
+static void ARBITRARY_CONFIG(void) { int v; cv_set_sanitycheck(v); }
+#endif
 
 #ifndef N
-#define N 24          /* buf is any NUL-terminated string shorter than N */
+#define N 128         /* buf is any NUL-terminated string shorter than N */
 #endif
 
 size_t g;             /* ghost index: arbitrary */
 
 #ifndef CV_NATIVE
 int cv_max_ipstrlen(void);
+void cv_set_string(const char *s, size_t len);
 
 static int ghosts_clear(void)
 {
@@ -51,7 +61,9 @@ __CPROVER_ensures(cv_addr_port_calls == (__CPROVER_return_value ? 1 : 0))
 #if defined(T_IPPORT)
 void h_ipport(void)
 {
-    char buf[N]; char force[8]; _Bool use_force; const int sanitycheck = cv_sanitycheck();
+    char buf[N]; char force[8]; _Bool use_force;
+    ARBITRARY_CONFIG();
+    const int sanitycheck = cv_sanitycheck();
     buf[N - 1] = 0; force[7] = 0;
     const char *forceIp = use_force ? force : NULL;
     int r = cv_ParseIpPort(buf, forceIp);
@@ -63,6 +75,7 @@ void h_ipport(void)
     int any = cv_addr_any;
     long port_set = cv_addr_port_calls ? (long)cv_addr_port : -1;
 
+#ifndef CV_DFCC   /* the frame-only targets (--dfcc) repeat the call, not the semantic postconditions */
     __CPROVER_assert(cv_sscanf_calls == 1, "ensures: the string is scanned exactly once");
     __CPROVER_assert(!r || n == 6, "ensures: accepted => all six components were present");
     __CPROVER_assert(!r || (p1 >= 0 && p1 <= 255 && p2 >= 0 && p2 <= 255), "ensures: accepted => p1, p2 within 0..255");
@@ -87,6 +100,7 @@ void h_ipport(void)
                      "ensures: accepted, forced IP => h1..h4 still within 0..255 (every component in range)");
     __CPROVER_assert(!r || !(o1 || o2 || o3 || o4 || o5 || o6),
                      "ensures: accepted => no component was too large for an int (huge components are rejected)");
+#endif
     __CPROVER_assert(buf[N - 1] == 0 && force[7] == 0, "ensures: input strings not written (sentinels)");
     __CPROVER_assert(cv_sanitycheck() == sanitycheck, "ensures: configuration not written");
 #ifdef REACH
@@ -116,11 +130,24 @@ __CPROVER_ensures(cv_addr_port_calls == (__CPROVER_return_value ? 1 : 0))
 #if defined(T_PROTOIPPORT)
 void h_protoipport(void)
 {
-    char buf[N]; const int sanitycheck = cv_sanitycheck();
-    buf[N - 1] = 0;
-    __CPROVER_assume(buf[0] != 0);
+    char buf[N]; size_t L;
+    ARBITRARY_CONFIG();
+    const int sanitycheck = cv_sanitycheck();
+    /* input domain: any NUL-terminated, non-empty string of length L < N (L = offset of the first NUL) */
+    __CPROVER_assume(L >= 1 && L < N);
+    /* built with constant indices (a quantified assumption over buf costs a quadratic number of array constraints):
+     * bytes before L are arbitrary non-zero, byte L is the terminator, bytes after it arbitrary */
+    for (size_t k = 0; k < N; k++) {
+        char ch;
+        if (k < L) __CPROVER_assume(ch != 0);
+        else if (k == L) ch = 0;
+        buf[k] = ch;
+    }
+    cv_set_string(buf, L);
+    const char guard = buf[N - 1];
     int r = cv_ParseProtoIpPort(buf);
     char d = buf[0];
+    /* copies for the counterexample file (the native replay rebuilds a string from them: the libc models are value-based) */
     long proto = cv_strtol_val[0], port = cv_strtol_val[1];
     int proto_ovf = cv_strtol_ovf[0], port_ovf = cv_strtol_ovf[1], port_digits = cv_strtol_digits[1];
     long port_set = cv_addr_port_calls ? (long)cv_addr_port : -1;
@@ -128,17 +155,23 @@ void h_protoipport(void)
     long len = cv_addr_len;                                            /* length of the text handed to the address */
     int any = cv_addr_any, v6 = cv_addr_v6;
 
+#ifndef CV_DFCC
     __CPROVER_assert(cv_max_ipstrlen() == CV_MAX_IPSTRLEN, "lemma: the stubs' MAX_IPSTRLEN is the compiled one");
     __CPROVER_assert(!r || (cv_strtol_calls == 2 && cv_strtol_nptr[0] == buf + 1 && !proto_ovf && (proto == 1 || proto == 2)),
                      "ensures: accepted => <net-prt> as written is 1 or 2");
-    /* the address text is exactly the bytes between the 2nd and 3rd delimiter, NUL-terminated, shorter than MAX_IPSTRLEN */
-    __CPROVER_assert(!r || (cv_addr_assigns == 1 && len >= 0 && len < CV_MAX_IPSTRLEN && a >= 1 && a + 1 + len < N &&
-                            buf[a] == d && buf[a + 1 + len] == d),
-                     "ensures: accepted => addr is assigned once from a terminated text < MAX_IPSTRLEN delimited by <d>..<d>");
-    __CPROVER_assert(!(r && len >= 0 && a >= 1 && a + 1 + len < N && g < (size_t)len) ||
-                     (cv_addr_text[g] == buf[a + 1 + g] && buf[a + 1 + g] != d),
+    /* frame of the local ip[MAX_IPSTRLEN] copy: bounds/pointer obligations of the real statements and of the strncpy model;
+     * and whatever reaches the address object, accepted or not, is terminated and short */
+    __CPROVER_assert(cv_addr_assigns == 0 || (cv_addr_assigns == 1 && len >= 0 && len < CV_MAX_IPSTRLEN),
+                     "ensures: any text handed to the address object is NUL-terminated within MAX_IPSTRLEN");
+    /* the address text is exactly the bytes between the 2nd and 3rd delimiter */
+    __CPROVER_assert(!r || (cv_addr_assigns == 1 && a >= 1 && a + 1 + len < (long)L && buf[a] == d && buf[a + 1 + len] == d),
+                     "ensures: accepted => addr is assigned once, from the text delimited by the 2nd and 3rd <d>");
+    __CPROVER_assert(!(r && len >= 0 && a >= 1 && a + 1 + len < (long)L && g < (size_t)len) ||
+                     (cv_addr_text_g == buf[a + 1 + g] && buf[a + 1 + g] != d),
                      "ensures: accepted => the assigned text equals <net-addr> byte for byte (ghost index)");
-    __CPROVER_assert(!r || (!any && v6 == (proto == 2)), "ensures: accepted => not the any-address, and family matches <net-prt>");
+    /* stated for the written <net-prt> values 1 and 2 only, so that it does not repeat the finding of the <net-prt> obligation */
+    __CPROVER_assert(!r || (!any && !(proto == 1 && v6) && !(proto == 2 && !v6)),
+                     "ensures: accepted => not the any-address, and family matches <net-prt>");
     __CPROVER_assert(!r || (cv_strtol_nptr[1] == buf + a + 1 + len + 1 && port_digits > 0),
                      "ensures: accepted => <tcp-port> is a number, read right after the 3rd delimiter");
 #ifdef TWIN_PORT
@@ -148,44 +181,28 @@ void h_protoipport(void)
     __CPROVER_assert(!r || (!port_ovf && cv_addr_port_calls == 1 && (long)cv_addr_port == port),
                      "ensures: accepted => the port handed to addr.port() equals the decimal written in <tcp-port>");
 #endif
+#ifdef TWIN_LEN
+    __CPROVER_assert(cv_addr_assigns == 0 || len < CV_MAX_IPSTRLEN - 1, "ensures: TWIN (too strong) text shorter than MAX_IPSTRLEN-1");
+#endif
     __CPROVER_assert(!r || (port_set >= 1 && port_set <= 65535), "ensures: accepted => 1 <= port <= 65535");
-    __CPROVER_assert(!(r && sanitycheck) || port_set >= 1024, "ensures: ftp_sanitycheck => accepted port >= 1024");
-    __CPROVER_assert(buf[N - 1] == 0 && buf[0] == d, "ensures: input string not written (sentinels)");
+    __CPROVER_assert(!(r && sanitycheck) || port_set >= 1024, "ensures: ftp_sanitycheck => accepted port >= 1024 (port as set)");
+    __CPROVER_assert(!(r && sanitycheck && !port_ovf && port >= 0 && port <= 65535) || port >= 1024,
+                     "ensures: ftp_sanitycheck => no in-range port below 1024 is accepted");
+#endif
+    __CPROVER_assert(buf[L] == 0 && buf[0] == d && buf[N - 1] == guard, "ensures: input string not written (sentinels)");
     __CPROVER_assert(cv_sanitycheck() == sanitycheck, "ensures: configuration not written");
 #ifdef REACH
     __CPROVER_assert(!(r && proto == 1 && port_set == 21 && len == 7), "reach: accepted, IPv4, 7-byte address, port 21");
     __CPROVER_assert(!(r && proto == 2 && sanitycheck && len == 3), "reach: accepted, IPv6 under sanitycheck");
     __CPROVER_assert(!(!r && cv_strtol_calls == 1 && proto == 3), "reach: rejected, protocol 3");
-    __CPROVER_assert(!(!r && cv_strtol_calls == 1 && cv_addr_assigns == 0 && proto == 1 && buf[a] == d), "reach: rejected, no 3rd delimiter");
+    __CPROVER_assert(!(!r && cv_strtol_calls == 1 && cv_addr_assigns == 0 && proto == 1 && buf[a] == d), "reach: rejected, no 3rd delimiter or text too long");
     __CPROVER_assert(!(!r && cv_addr_assigns == 1 && any), "reach: rejected, any-address / unparsable");
     __CPROVER_assert(!(!r && cv_addr_assigns == 1 && !any && v6 && proto == 1), "reach: rejected, family mismatch");
     __CPROVER_assert(!(!r && cv_strtol_calls == 2 && port < 0), "reach: rejected, negative port");
     __CPROVER_assert(!(!r && cv_strtol_calls == 2 && port == 80 && sanitycheck), "reach: rejected, port < 1024 under sanitycheck");
-#endif
-}
-#endif
-
-/* -------- the "address text too long" reject needs a string longer than MAX_IPSTRLEN: own target with a larger N -------- */
-#if defined(T_PROTO_LONG)
-void h_proto_long(void)
-{
-    char buf[N]; const int sanitycheck = cv_sanitycheck();
-    buf[N - 1] = 0;
-    __CPROVER_assume(buf[0] != 0);
-    int r = cv_ParseProtoIpPort(buf);
-    long a = cv_strtol_calls >= 1 ? cv_strtol_end[0] - buf : -1;
-    long len = cv_addr_len;
-    /* frame of the local ip[MAX_IPSTRLEN] copy: checked by the bounds/pointer obligations of the real statements and of the
-     * strncpy model; what reaches the address object is terminated and short */
-    __CPROVER_assert(cv_addr_assigns == 0 || (len >= 0 && len < CV_MAX_IPSTRLEN),
-                     "ensures: any text handed to the address object is NUL-terminated within MAX_IPSTRLEN");
-    __CPROVER_assert(!r || (a >= 1 && a + 1 + len < N && buf[a + 1 + len] == buf[0]), "ensures: accepted => text ends at the 3rd delimiter");
-#ifdef TWIN_LEN
-    __CPROVER_assert(cv_addr_assigns == 0 || len < CV_MAX_IPSTRLEN - 1, "ensures: TWIN (too strong) text shorter than MAX_IPSTRLEN-1");
-#endif
-#ifdef REACH
-    __CPROVER_assert(!(cv_addr_assigns == 1 && len == CV_MAX_IPSTRLEN - 1), "reach: longest accepted address text (74 bytes)");
-    __CPROVER_assert(!(!r && cv_strtol_calls == 1 && cv_addr_assigns == 0 && a == 2 && buf[a] == buf[0] && buf[a + 1 + CV_MAX_IPSTRLEN] == buf[0]),
+    __CPROVER_assert(!(cv_addr_assigns == 1 && len == CV_MAX_IPSTRLEN - 1), "reach: longest address text that reaches the address object (74 bytes)");
+    __CPROVER_assert(!(!r && cv_strtol_calls == 1 && cv_addr_assigns == 0 && a == 2 && buf[a] == d && buf[a + 1 + CV_MAX_IPSTRLEN] == d &&
+                       L > (size_t)a + 2 + CV_MAX_IPSTRLEN),
                      "reach: rejected, 75-byte address text");
 #endif
 }
